@@ -60,7 +60,12 @@ class Report:
         self.violations.append({"clause": clause, "case": case, "detail": detail})
 
     def known(self, fid, what):
-        self.known_hits.append((fid, what))
+        """a violation attributed to a finding listed in known_findings.json (only for the properties listed there)"""
+        kf = {k["id"]: k for k in load_known().get("known", [])}
+        if fid in kf and self.pid in kf[fid].get("properties", []):
+            self.known_hits.append((fid, what))
+        else:
+            self.other["attributed_to_" + fid] = self.other.get("attributed_to_" + fid, 0) + 1
 
     def finish(self, extra_cov=None, exhaustive=None):
         os.makedirs(REPLAYS, exist_ok=True)
